@@ -75,6 +75,13 @@ Strip(t, ncg) == IF t.op \in {"opt", "atom"} \/ (t.op = "cat" /\ Len(t.kids) = 1
 \* no-loop-multiplication, instead of a hole in the domain.)
 InFragment(t, ncg) == TRUE
 
+\* C06's domain ("no quantified nullable sub-pattern", and nothing the reducer multiplies): on these patterns leftmost-first
+\* (Go's regexp) and backtracking semantics provably coincide
+RECURSIVE NoNullableOperand(_,_)
+NoNullableOperand(t, ncg) ==
+  /\ \A j \in 1..Len(t.kids) : NoNullableOperand(t.kids[j], ncg)
+  /\ t.op = "rep" => ~Nullable(t.kids[1]) /\ Strip(t.kids[1], ncg).op # "rep"
+
 \* ---------------------------------------------------------------- indexed-sequence combinators
 Map1(f(_), A)       == [i \in 1..Len(A) |-> f(A[i])]
 Prod2(f(_,_), A, B) == [i \in 1..(Len(A) * Len(B)) |-> f(A[((i - 1) \div Len(B)) + 1], B[((i - 1) % Len(B)) + 1])]
